@@ -73,7 +73,9 @@ pub fn record_scenarios(seed: u64, n: usize) -> Result<Vec<J>, String> {
             }
             let start_new = started < ne && (live.is_empty() || rng.gen_bool(0.3));
             if start_new {
-                futs[started] = Some(Box::pin(rs.evaluate_value(&inputs[started])));
+                // (the evaluation's id travels in a task-local, so that the scripted functions can say who called them)
+                futs[started] = Some(Box::pin(EV.scope(started + 1, rs.evaluate_value(&inputs[started]))));
+                built.log.event(started + 1, "start", "", None, 0, true);
                 sched.push(json!({"a": "start", "e": started + 1}));
                 started += 1;
                 continue;
@@ -81,6 +83,7 @@ pub fn record_scenarios(seed: u64, n: usize) -> Result<Vec<J>, String> {
             let e = live[rng.gen_range(0..live.len())];
             if rng.gen_bool(0.04) {
                 futs[e] = None;
+                built.log.event(e + 1, "drop", "", None, 0, true);
                 sched.push(json!({"a": "drop", "e": e + 1}));
                 continue;
             }
@@ -91,6 +94,7 @@ pub fn record_scenarios(seed: u64, n: usize) -> Result<Vec<J>, String> {
                 }
                 Ok(Poll::Pending) => sched.push(json!({"a": "poll", "e": e + 1, "ready": false, "ncalls": built.log.entries.lock().unwrap().len()})),
                 Ok(Poll::Ready(res)) => {
+                    built.log.event(e + 1, "finish", "", None, 0, true);
                     sched.push(json!({"a": "poll", "e": e + 1, "ready": true, "ncalls": built.log.entries.lock().unwrap().len()}));
                     x[e] = match &res {
                         Err(err) => json!([{"rule": [], "o": {"panic": format!("whole call failed: {err}")}}]),
@@ -106,7 +110,25 @@ pub fn record_scenarios(seed: u64, n: usize) -> Result<Vec<J>, String> {
         }
         drop(futs);
         let calls: Vec<J> = built.log.snapshot().iter().map(|c| json!({"f": cps(&c.func), "arg": to_model(&c.arg)})).collect();
-        let mut rec = json!({"env": env, "rules": rules_j, "inputs": inputs.iter().map(to_model).collect::<Vec<_>>(), "schedule": sched, "x": x, "calls": calls});
+        // the same execution as the abstract cache protocol sees it (CacheAbsTrace.tla)
+        // (arguments are numbered in order of first appearance: identity of the value as written, i.e. of its model image)
+        let mut arg_ids: Vec<String> = Vec::new();
+        let mut arg_id = |v: &Value| -> usize {
+            let key = to_model(v).to_string();
+            match arg_ids.iter().position(|k| *k == key) {
+                Some(i) => i + 1,
+                None => {
+                    arg_ids.push(key);
+                    arg_ids.len()
+                }
+            }
+        };
+        let abs: Vec<J> = built.log.events.lock().unwrap().iter().map(|ev| match ev.kind {
+            "invoke" => json!({"a": "invoke", "e": ev.ev, "f": cps(&ev.func), "arg": ev.arg.as_ref().map(to_model), "ai": ev.arg.as_ref().map(&mut arg_id), "n": ev.ordinal}),
+            "ret" => json!({"a": "ret", "e": ev.ev, "f": cps(&ev.func), "n": ev.ordinal, "ok": ev.ok}),
+            k => json!({"a": k, "e": ev.ev}),
+        }).collect();
+        let mut rec = json!({"env": env, "rules": rules_j, "inputs": inputs.iter().map(to_model).collect::<Vec<_>>(), "schedule": sched, "x": x, "calls": calls, "abs": abs});
         if let Some(p) = bad {
             rec["panic"] = J::from(p);
         }
